@@ -68,7 +68,7 @@ CHECKS = {
          "go/types is the oracle of type identity; h/oracle.TypeKey is the canonical form; types whose go/types reference rendering is itself rejected are discarded (counted).",
          "property-based round-trip testing (generate type -> emit through builder -> re-check -> compare canonical forms)"),
  "C14": ("exploration",
-         "For generated value types the zero value the builder synthesises is checked in five uses: Package.Zero's reported type must be identical to T; `var Z T = zero`, `x := zero`, ReturnErr padding, the zero-argument conversion T() and an omitted optional argument are emitted and type-checked: go/types must accept them and x must get a type identical to T. Sampling.",
+         "For generated value types the zero value the builder synthesises is checked in five uses: Package.Zero's reported type must be identical to T; `var Z T = zero`, `x := zero`, ReturnErr padding, the zero-argument conversion T() and an omitted optional argument are emitted and type-checked: go/types must accept them and x must get a type identical to T. Plus a closed grid, enumerated completely, of delay-loaded named types (Config.LoadNamed: NewType without InitType when the zero value is asked for; 15 underlying types x through an alias or not x ReturnErr / ZeroLit / Zero): the written package must type-check. Sampling for the generated part.",
          "DESIGN.md §7 C14",
          "go/types is the oracle; 'evaluates to the zero value' is judged by form (literal 0/\"\"/false, nil, element-less composite literal), not by execution.",
          "property-based testing: generated types, emitted zero values differential-checked with go/types"),
